@@ -30,7 +30,9 @@ CLAIMED.update({
         "text": "Proof of the compute-table side of node lifetime: cache counts change by exactly one per cacheNode/uncacheNode, "
                 "the last uncache of a dead handle recycles it, of an unreferenced live node reclaims it, and no caller can "
                 "recycle a handle whose cache count is non-zero (gating lemma = named precondition of recycleNodeHandle checked "
-                "at every call site). Partial: the compute-table templates themselves (ct_styles.cc) are out of reach.",
+                "at every call site). The item a hit copies out of an uncompressed table reads back, by type, exactly as stored "
+                "(ct_item::set(ct_typeID, ct_entry_item) with the real typed setters and getters). "
+                "Partial: the compute-table templates themselves (ct_styles.cc) are out of reach.",
         "note": COMMON_NOTE,
         "design_ref": "DESIGN.md 4 U-cnt, U-hdr",
     },
@@ -41,6 +43,8 @@ CLAIMED.update({
                 "the looked-up hash, returns the existing node on a hit (real forest::createReducedNode, all branches, unbounded node "
                 "size); EV+ edge values are normalised to one representative; the hash is a function of the pushed word sequence "
                 "(hash_stream grouping lemmas); edge equality is forest id + handle + value; terminal handles are injective. "
+                "BOUNDED stand-in (labelled bounded): the real unpacked_node::sort that createReducedNode runs on every sparse scratch node, on nodes "
+                "of up to 3 entries, multi-terminal (no edge array) and edge-valued (U-sortb; exposed a null dereference, fixed). "
                 "Partial: unique-table chains, packed-node duplicate test and every operation's use of these are unverified.",
         "note": COMMON_NOTE + " Completeness of the redundant/identity elimination (every redundant node IS eliminated) needs a counting "
                 "argument over all children and is not proved; soundness (only redundant/identity patterns are eliminated, the function is preserved) is.",
@@ -54,7 +58,7 @@ CLAIMED.update({
                 "The in-place rewrite used by reordering (forest::modifyReducedNodeInPlace) leaves the unique table under the old hash "
                 "before the storage goes and re-enters under the hash of the new content. BOUNDED stand-ins (labelled bounded, not counted "
                 "as proved): the packed-node codec in both directions (makeNode, areDuplicates, getDownPtr, isSingletonNode, fillUnpacked in every view) on nodes of up to 3 entries (U-codecb, U-unpackb) and the real mtmdd swapAdjacentVariables on a "
-                "symbolic world of 2 (quick) / 3 (thorough) stored nodes (U-swapb). Partial (see note).",
+                "symbolic world of 2 (quick) / 3 (thorough) stored nodes (U-swapb); the real unpacked_node::sort on sparse nodes of up to 3 entries (U-sortb). Partial (see note).",
         "note": COMMON_NOTE + " Not covered: relation swaps, chain builders, node-count bookkeeping across histories, "
                 "completeness of elimination (counting argument).",
         "design_ref": "DESIGN.md A.1, A.2b, 4 U-reduce, U-hash",
@@ -75,7 +79,11 @@ CLAIMED.update({
                 "the unique-table entry (modifyReducedNodeInPlace). BOUNDED stand-in (labelled bounded): the real mtmdd_forest::"
                 "swapAdjacentVariables on a symbolic world of 2 / 3 stored nodes with variable sizes 2..3 - every rewritten node has "
                 "new[j][k] == old[k][j], independent nodes are only relabelled, children stay below parents, one exchange. "
-                "Relation swaps and the scheduling heuristics are out of reach.",
+                "The swap-method selectors of policies: each method can be selected, never both (exposed isLevelSwap testing VAR, fixed). "
+                "BOUNDED stand-ins for four of the eight schedules (sink_down, bring_up, lowest_inversion, highest_inversion: the real "
+                "reorderVariables on domains of up to 4 variables, every current and target order): only adjacent levels inside the domain are "
+                "swapped, every array access is in bounds (exposed a heap overflow by one int in six schedules, fixed), the target order is reached. "
+                "Relation swaps, the EV+ swap and the four cost-driven schedules are out of reach.",
         "note": COMMON_NOTE,
         "design_ref": "DESIGN.md A.2b, 4 U-vord",
     },
